@@ -463,6 +463,66 @@ def _check_structure(rep: Report, rule: str, m) -> None:
     rep.check(not exits, rule, po.module, po.qualname, "the row loop examines every row to the end of the sheet", f"the row loop of parse_ods contains {[type(n).__name__.lower() for n in exits]}: structural faults after that point (data outside a table, repeated tables, dangling TABLE END) are never examined", loc(exits[0]) if exits else loc(loops[0]))
 
 
+def _check_named_asset(rep: Report, rule: str, m, main, loop) -> None:
+    """An asset named with -a reaches the parser as given (so that one the configuration does not list is rejected by parse_ods' type_check_asset,
+    C12.b): on the path where args.asset is set, the list the per-asset loop iterates is exactly [args.asset]; without -a it is the configured assets."""
+    from ..symexec import SPath, SymExec
+
+    if loop is None or not isinstance(loop.iter, ast.Name):
+        rep.defer_error(f"{loc(main.node)}: {main.qualname}: the per-asset loop does not iterate a list held in a local: -a handling not decided for this shape")
+        return
+    name = loop.iter.id
+    blk = getattr(parent(loop), "body", [])
+    if loop not in blk:
+        rep.defer_error(f"{loc(loop)}: {main.qualname}: per-asset loop not found in a statement block: -a handling not decided for this shape")
+        return
+    i = blk.index(loop)
+    first = next((k for k, st in enumerate(blk[:i]) if any(isinstance(n, ast.Name) and n.id == name and isinstance(n.ctx, ast.Store) for n in ast.walk(st))), None)
+    if first is None:
+        rep.defer_error(f"{loc(loop)}: {main.qualname}: '{name}' is not bound in the block of the per-asset loop: -a handling not decided for this shape")
+        return
+    se = SymExec(m.norm, m.norm.ctx_for(main, subst_locals=False), inline_helpers=False)
+    given = ("attr", ("sym", "args"), "asset")
+    configured = ("fld", ("sym", "configuration"), "Configuration.__assets")
+    counts = {"given": 0, "all": 0}
+    for p in se.run(blk[first:i], SPath()):
+        if p.exit != "fall":
+            continue
+        val = p.vars.get(name, (None,))[0]
+        conds = p.conds()
+        has = ("truthy", given) in conds or ("cmp", "is not", given, ("const", None)) in conds
+        has_not = ("not", ("truthy", given)) in conds or ("cmp", "is", given, ("const", None)) in conds
+        cases = [(has, has_not, val)]
+        if not has and not has_not and val is not None:
+            # the same decision written as a conditional expression (possibly inside sorted(...) / list(...))
+            inner, wrap = val, []
+            while inner[0] == "xcall" and inner[1] in ("sorted", "list") and inner[2] is None and len(inner[3]) == 1 and not inner[4]:
+                wrap.append(inner[1])
+                inner = inner[3][0]
+            if inner[0] == "ite" and inner[1] in (("truthy", given), ("cmp", "is not", given, ("const", None))):
+                cases = [(True, False, inner[2]), (False, True, inner[3])]
+        for has, has_not, val in cases:
+            _judge_asset_list(rep, rule, main, loop, has, has_not, val, given, configured, counts)
+    n_given, n_all = counts["given"], counts["all"]
+    if n_given == 0 and n_all == 0:
+        return
+    if not (n_given and n_all):
+        rep.violation(rule, main.module, main.qualname, "both 'asset named' and 'all configured assets' are handled", f"paths that build the asset list: with -a {n_given}, without {n_all}", loc(loop))
+
+
+def _judge_asset_list(rep, rule, main, loop, has, has_not, val, given, configured, counts) -> None:
+    if has:
+        counts["given"] += 1
+        ok = val in (("list", (given,)), ("xcall", "sorted", None, (("list", (given,)),), ()))
+        rep.check(ok, rule, main.module, main.qualname, "-a ASSET: the asset processed is the one named, as given", f"with -a the per-asset loop iterates {show(val)[:160] if val else None}; expected [args.asset]: a name the configuration does not list (a typo, wrong case, a comma list) must reach parse_ods and be rejected there, not be filtered away (no asset processed, empty reports, exit 0)", loc(loop))
+    elif has_not:
+        counts["all"] += 1
+        ok = val is not None and configured in list(subterms(val)) and given not in list(subterms(val))
+        rep.check(ok, rule, main.module, main.qualname, "no -a: every configured asset is processed", f"without -a the per-asset loop iterates {show(val)[:160] if val else None}; expected the configured assets", loc(loop))
+    else:
+        rep.violation(rule, main.module, main.qualname, "the asset list is decided on whether -a was given", f"the list of assets to process is {show(val)[:200] if val else None} on a path that does not test args.asset: expected [args.asset] when -a is given (an unknown name must be rejected by the parser, not filtered away) and the configured assets otherwise", loc(loop))
+
+
 def _check_config_cli(rep: Report, rule: str, m) -> None:
     prog = m.prog
     cfg_init = prog.func("rp2.configuration", "Configuration.__init__")
@@ -549,6 +609,7 @@ def _check_exit(rep: Report, rule: str, m) -> None:
     gens = [n for n in ast.walk(tr) if isinstance(n, ast.Call) and unparse(n.func) == "_find_and_run_report_generators"]
     ok = len(loops) == 1 and len(gens) == 1 and gens[0].lineno > loops[0].end_lineno
     rep.check(ok, rule, main.module, main.qualname, "report generators run once, after the per-asset loop", "report generation is not strictly after the loop that parses and computes every asset: a report could be written before a later asset is rejected", loc(tr))
+    _check_named_asset(rep, rule, m, main, loops[0] if len(loops) == 1 else None)
     frg = prog.func("rp2.rp2_main", "_find_and_run_report_generators")
     tail = frg.node.body[-1]
     ok = isinstance(tail, ast.If) and unparse(tail.test) == "generators" and "sys.exit(1)" in unparse(tail.body[-1])
